@@ -45,6 +45,12 @@ type Plan struct {
 	// CloseErrKind: what Close(err) is called with: 0 a plain error, 1 context.Canceled itself, 2 an error wrapping
 	// context.DeadlineExceeded
 	CloseErrKind int `json:"close_err_kind,omitempty"`
+	// Copies: every actor works through its own by-value copy of the PipeSender (a sender kept in a struct field,
+	// `cp := *sender`): all copies are the same sender
+	Copies bool `json:"copies,omitempty"`
+	// CtxKind: 0 = standard-library contexts, 1 = a hand-written pointer-free context type (sk.Detach), 2 = a
+	// hand-written by-value context type that == cannot compare (sk.DetachValue)
+	CtxKind int `json:"ctx_kind,omitempty"`
 }
 
 func genPlan(t *rapid.T) Plan {
@@ -52,6 +58,8 @@ func genPlan(t *rapid.T) Plan {
 	racy := rapid.IntRange(0, 2).Draw(t, "racy") > 0
 	p.Deadlines = rapid.IntRange(0, 2).Draw(t, "deadlines") == 0
 	p.CloseErrKind = rapid.SampledFrom([]int{0, 0, 1, 2}).Draw(t, "closeerrkind")
+	p.Copies = rapid.IntRange(0, 3).Draw(t, "copies") == 0
+	p.CtxKind = rapid.SampledFrom([]int{0, 0, 0, 1, 2}).Draw(t, "ctxkind")
 	n := rapid.IntRange(1, 24).Draw(t, "n")
 	nctx := 0
 	for i := 0; i < n; i++ {
@@ -213,8 +221,19 @@ func script(p Plan, out *vk.Outcome) error {
 		wg.Add(1)
 		go func(a int) {
 			defer wg.Done()
+			sender := sender
+			if p.Copies {
+				mine := *sender
+				sender = &mine
+			}
 			for r := range inbox[a] {
 				ctx := w.ctxFor(r.ctx)
+				switch p.CtxKind {
+				case 1:
+					ctx = sk.Detach(ctx)
+				case 2:
+					ctx = sk.DetachValue(ctx)
+				}
 				w.mu.Lock()
 				r.call = sk.Tick()
 				w.mu.Unlock()
